@@ -92,6 +92,7 @@ def cases_gradient(tier):
         add(2, 2, 2, 1, None, False, "stddev", cw=[0.5, 0.5])
         out[-1]["__concrete_only__"] = True
         add(3, 2, 1, 1, None, False, "stddev", cw=[0.2, 0.3, 0.5])
+        out[-1]["__concrete_only__"] = True
         add(3, 1, 1, 1, None, True, "mean", shared=True)
         add(3, 2, 2, 1, None, True, "mean", cw=[0.0, 1.0, 0.0])
     for c in out:
